@@ -120,11 +120,28 @@ func buildSPModel(r *Report) *spModel {
 	p := r.P
 	sc := NewScope(p, r.Tier)
 	m := &spModel{P: p, Sc: sc}
+	inl := validatorInline(p, sc)
 	one := func(tn string) *ssa.Function {
 		fs := funcsUnmarshallingInto(p, tn)
+		seen := map[*ssa.Function]bool{}
 		var in []*ssa.Function
 		for _, f := range fs {
-			if f.Pkg != nil && f.Pkg.Pkg.Path() == modPath && f.Signature.Recv() != nil && typeIs(f.Signature.Recv().Type(), modPath, "ServiceProvider") {
+			// a check block factored out of the parser (error-only result, analysed as part of its caller) may be
+			// where the message is unmarshalled: the parser is the function it is called from
+			for i := 0; i < 3 && inl(f); i++ {
+				var callers []*ssa.Function
+				for _, cs := range p.StaticCallersOf(f) {
+					if p.InLibrary(cs.Caller) && (len(callers) == 0 || callers[len(callers)-1] != cs.Caller) {
+						callers = append(callers, cs.Caller)
+					}
+				}
+				if len(callers) != 1 {
+					break
+				}
+				f = callers[0]
+			}
+			if f.Pkg != nil && f.Pkg.Pkg.Path() == modPath && f.Signature.Recv() != nil && typeIs(f.Signature.Recv().Type(), modPath, "ServiceProvider") && !seen[f] {
+				seen[f] = true
 				in = append(in, f)
 			}
 		}
@@ -137,7 +154,7 @@ func buildSPModel(r *Report) *spModel {
 	m.AssertFn = one("Assertion")
 	m.ArtFn = one("ArtifactResponse")
 	m.A = NewAnalysis(p)
-	m.A.Inline = validatorInline(p, sc)
+	m.A.Inline = inl
 	mk := func(fn *ssa.Function) *Table {
 		fc := m.A.ctxWith(fn, typedEnv(fn, spParamNames), "", 0)
 		fc.ensureConds()
@@ -277,7 +294,17 @@ func checkReturned(r *Report, m *spModel, rule string) {
 			if ld, ok := src.(*ssa.UnOp); ok {
 				if ex, ok := ld.X.(*ssa.Extract); ok && ex.Index == 0 {
 					if call, ok := ex.Tuple.(*ssa.Call); ok {
-						if scf := call.Call.StaticCallee(); scf != nil && fam[scf] {
+						// the static callee, or every target of a call through a table of parser functions
+						inFam := false
+						if cands := p.CalleesAt(rf, call); len(cands) > 0 {
+							inFam = true
+							for _, ca := range cands {
+								if !fam[ca.Fn] {
+									inFam = false
+								}
+							}
+						}
+						if inFam {
 							name := "isnil(" + rc.AP(call) + "#1)"
 							if B.HasVar(name) && rc.Implied(b, B.Var(name)) {
 								okA = true
@@ -363,7 +390,7 @@ func valueSources(p *Prog, caller *ssa.Function, v ssa.Value, depth int, seen ma
 	case *ssa.Parameter:
 		for i, prm := range caller.Params {
 			if prm == x {
-				if caller.Object() != nil && caller.Object().Exported() && len(p.StaticCallersOf(caller)) == 0 {
+				if caller.Object() != nil && caller.Object().Exported() && len(p.CallersOf(caller)) == 0 {
 					return []string{"parameter " + x.Name() + " of exported " + p.FnName(caller)}
 				}
 				return paramSources(p, caller, i, depth+1, seen)
@@ -835,14 +862,8 @@ func checkArtifactID(r *Report, m *spModel, rule string) {
 					if ex, oke := fa.X.(*ssa.Extract); oke {
 						if c, okc := ex.Tuple.(*ssa.Call); okc {
 							if scf := c.Call.StaticCallee(); scf != nil && scf.Name() == "MakeArtifactResolveRequest" {
-								// and the same object's SoapRequest() is what is posted
-								for _, rf := range *ex.Referrers() {
-									if c2, ok2 := rf.(*ssa.Call); ok2 {
-										if s2 := c2.Call.StaticCallee(); s2 != nil && s2.Name() == "SoapRequest" {
-											ok = true
-										}
-									}
-								}
+								// and the same object's SoapRequest() is what is posted (here or in a helper it is handed to)
+								ok = receiverOfMethod(p, ex, "SoapRequest", 0)
 							}
 						}
 					}
@@ -851,6 +872,36 @@ func checkArtifactID(r *Report, m *spModel, rule string) {
 		}
 		r.Check(ok, rule, cons, p.InstrPos(cs.Instr.(ssa.Instruction)), "ID of the ArtifactResolve built and posted by this function ("+detail+")", "the artifact response is not correlated with the ArtifactResolve that was just issued: "+detail)
 	}
+}
+
+// receiverOfMethod: v is the receiver of a call to the named method, in this function or in a module function it is
+// passed to (bound 3).
+func receiverOfMethod(p *Prog, v ssa.Value, method string, depth int) bool {
+	if v.Referrers() == nil || depth > 3 {
+		return false
+	}
+	for _, rf := range *v.Referrers() {
+		c2, ok := rf.(ssa.CallInstruction)
+		if !ok {
+			continue
+		}
+		s2 := c2.Common().StaticCallee()
+		if s2 == nil {
+			continue
+		}
+		for i, a := range c2.Common().Args {
+			if a != v {
+				continue
+			}
+			if i == 0 && s2.Name() == method && s2.Signature.Recv() != nil {
+				return true
+			}
+			if p.InModule(s2) && i < len(s2.Params) && receiverOfMethod(p, s2.Params[i], method, depth+1) {
+				return true
+			}
+		}
+	}
+	return false
 }
 
 // checkMiddlewareIDs: provenance of the []string passed to ParseResponse by samlsp.
@@ -865,17 +916,19 @@ func checkMiddlewareIDs(r *Report, m *spModel, rule string) {
 		}
 		n++
 		a := NewAnalysis(p)
-		fc := a.Ctx(fn)
-		fc.ensureConds()
 		B := a.B
 		ids := cs.Instr.Common().Args[2]
-		// collect every append that feeds the slice (through phis)
+		// collect every append that feeds the slice (through phis and through module helpers that build it)
+		type site struct {
+			fn *ssa.Function
+			c  *ssa.Call
+		}
 		seen := map[ssa.Value]bool{}
-		var appends []*ssa.Call
+		var appends []site
 		okShape := true
 		shapeWhy := "the ID slice has a source other than an empty literal extended by append"
-		var walk func(v ssa.Value)
-		walk = func(v ssa.Value) {
+		var walk func(in *ssa.Function, v ssa.Value, depth int)
+		walk = func(in *ssa.Function, v ssa.Value, depth int) {
 			if seen[v] {
 				return
 			}
@@ -883,18 +936,31 @@ func checkMiddlewareIDs(r *Report, m *spModel, rule string) {
 			switch x := v.(type) {
 			case *ssa.Phi:
 				for _, e := range x.Edges {
-					walk(e)
+					walk(in, e, depth)
 				}
 			case *ssa.Call:
 				if bi, ok := x.Call.Value.(*ssa.Builtin); ok && bi.Name() == "append" {
-					appends = append(appends, x)
-					walk(x.Call.Args[0])
+					appends = append(appends, site{in, x})
+					walk(in, x.Call.Args[0], depth)
+					return
+				}
+				if scf := x.Call.StaticCallee(); scf != nil && p.InModule(scf) && len(scf.Blocks) > 0 && depth < 3 && scf.Signature.Results().Len() == 1 {
+					r.Fn(p.FnName(scf))
+					for _, ret := range a.Ctx(scf).Returns() {
+						walk(scf, ret.Results[0], depth+1)
+					}
 					return
 				}
 				okShape = false
 			case *ssa.Slice:
-				if al, ok := x.X.(*ssa.Alloc); ok && strings.Contains(al.Type().String(), "[0]string") {
-					return // []string{}
+				if al, ok := x.X.(*ssa.Alloc); ok {
+					if strings.Contains(al.Type().String(), "[0]string") {
+						return // []string{}
+					}
+					// make([]string, 0, k) with constant k: a zero-length window on a fresh array
+					if x.High != nil && isIntConst(x.High, 0) && x.Low == nil {
+						return
+					}
 				}
 				okShape = false
 			case *ssa.Const:
@@ -908,15 +974,18 @@ func checkMiddlewareIDs(r *Report, m *spModel, rule string) {
 				okShape = false
 			}
 		}
-		walk(ids)
+		walk(fn, ids, 0)
 		cons := fmt.Sprintf("%s: outstanding request IDs passed to ParseResponse", p.FnName(fn))
 		if !okShape {
 			r.Bad(rule, cons, p.InstrPos(cs.Instr.(ssa.Instruction)), shapeWhy)
 			continue
 		}
-		for _, ap := range appends {
+		for _, st := range appends {
+			ap := st.c
+			fc := a.Ctx(st.fn)
+			fc.ensureConds()
 			v := appendedValue(ap)
-			c2 := fmt.Sprintf("%s: ID appended: %s", p.FnName(fn), fc.AP(v))
+			c2 := fmt.Sprintf("%s: ID appended: %s", p.FnName(st.fn), fc.AP(v))
 			switch {
 			case isEmptyStringConst(v):
 				// only under AllowIDPInitiated
